@@ -3,15 +3,80 @@
     Everything is generic in the semiring: [forall R (o : sr_ops R), sr_ring o -> ...].
     The derivative is defined by running the SAME definitions over the dual numbers
     [dual_ops o : sr_ops (R * R)] (Model/Dual.v). *)
-From Coq Require Import List Arith Bool PeanoNat.
+From Coq Require Import QArith Qcanon List Arith Bool PeanoNat.
 Import ListNotations.
 Require Import Fggs.Model.Semiring Fggs.Model.SCC Fggs.Model.SumProduct Fggs.Model.SumProductCheck
-               Fggs.Model.Kleene Fggs.Model.Dual.
+               Fggs.Model.EReal Fggs.Model.Kleene Fggs.Model.Dual.
+Local Open Scope nat_scope.
 Require Import Fggs.Proofs.BigSum Fggs.Proofs.SP_trees Fggs.Proofs.SP_nonrec Fggs.Proofs.SP_driver
                Fggs.Proofs.SP_examples
                Fggs.Proofs.Dual_ring Fggs.Proofs.Dual_leibniz Fggs.Proofs.Dual_trees Fggs.Proofs.Dual_J
                Fggs.Proofs.Dual_vjp Fggs.Proofs.Dual_encl Fggs.Proofs.Dual_examples
-               Fggs.Proofs.SP_main Fggs.Proofs.Dual_back Fggs.Proofs.Dual_nonrec.
+               Fggs.Proofs.SP_main Fggs.Proofs.Dual_back Fggs.Proofs.Dual_nonrec Fggs.Proofs.Dual_check.
+
+(** * 0. The oracle of the correspondence check is sound *)
+(** verdict 0 of [grad_check_real]: the grammar is well-formed and every observed gradient entry
+    (an interval around the float) meets the interval [entry_interval] ... *)
+Theorem C03_check_oracle_sound :
+  forall gw ws is_log rounds cot obs,
+  grad_check_real (gw, ws, (is_log, rounds), cot, obs) = 0 ->
+  let G := grammar_of_w gw in
+  wf_grammar G = true
+  /\ length cot = length (all_assts (lshape G (g_start G)))
+  /\ exists order, scc (nt_graph G) = Some order
+     /\ forall l wl ob, In (l, wl) ws -> obs_get obs l = Some ob ->
+          length ob = length (all_assts (lshape G l)) /\ length wl = length (all_assts (lshape G l))
+          /\ forall i0 wv ob1, In (i0, wv, ob1) (combine (combine (all_assts (lshape G l)) wl) ob) ->
+               exists iv, entry_interval G ws is_log rounds (nonrecursive_order G order) cot l i0 wv = Some (Some iv)
+                          /\ meets iv ob1 = true.
+Proof. exact grad_check_sound. Qed.
+Print Assumptions C03_check_oracle_sound.
+
+(** ... which contains the cotangent-weighted derivative computed from the two components
+    (Z_j, dZ_j/dw) of the dual Kleene iterates of the start symbol's cells: Real: sum_j c_j dZ_j/dw,
+    Log: sum_j c_j w (dZ_j/dw) / Z_j; at iterate #nonterminals for non-recursive grammars (the sum
+    over all derivations, C01), at every sufficiently late iterate for recursive ones (so also in
+    the limit).  The semiring laws of the carrier [0, inf] are premises (C08). *)
+Theorem C03_entry_interval_sound :
+  sr_ring ereal_ops -> sr_ordered ereal_ops ->
+  forall G ws is_log rounds nonrec cot l i0 wv iv,
+  wf_grammar G = true -> (0 <= wq_of wv)%Q ->
+  entry_interval G ws is_log rounds nonrec cot l i0 wv = Some (Some iv) ->
+  exists K, forall k, (if nonrec then k = length (nonterminals G) else K <= k) ->
+    exists gs,
+      Forall2 (fun xi g => exists az ad,
+                 Zk dops G (env_of dops (dual_weights G ws l i0)) k (g_start G) xi = (Fin az, Fin ad)
+                 /\ (is_log = true -> (0 < this (qv az))%Q)
+                 /\ g = cell_quantity is_log (wq_of wv) (this (qv az)) (this (qv ad)))
+              (all_assts (lshape G (g_start G))) gs
+      /\ (fst iv <= dot cot gs)%Q /\ (dot cot gs <= snd iv)%Q.
+Proof. exact entry_interval_sound. Qed.
+Print Assumptions C03_entry_interval_sound.
+
+Theorem C03_start_bounds_sound :
+  sr_ring ereal_ops -> sr_ordered ereal_ops ->
+  forall G ws rounds nonrec l i0 tlo tv,
+  wf_grammar G = true -> start_bounds G ws rounds nonrec l i0 = Some (tlo, tv) ->
+  exists K, forall k, (if nonrec then k = length (nonterminals G) else K <= k) ->
+    forall xi, In xi (all_assts (lshape G (g_start G))) ->
+      le dops (tab_get dops tlo xi) (Zk dops G (env_of dops (dual_weights G ws l i0)) k (g_start G) xi)
+      /\ le dops (Zk dops G (env_of dops (dual_weights G ws l i0)) k (g_start G) xi) (tab_get dops tv xi).
+Proof. exact start_bounds_sound. Qed.
+Print Assumptions C03_start_bounds_sound.
+
+(** the rounding functions of the Real instance round in the right direction; signed interval
+    contraction is sound *)
+Theorem C03_rounding_directed :
+  (forall x, ele (rd_f x) x) /\ (forall x, ele x (ru_f x))
+  /\ (forall a b : D, pair_rel eleb a b = true -> le dops a b).
+Proof. exact (conj rd_f_le (conj ru_f_ge pair_eleb_sound)). Qed.
+Print Assumptions C03_rounding_directed.
+
+Theorem C03_contract_sound :
+  forall cs los gs his, bounded3 los gs his ->
+    (fst (contract cs los his) <= dot cs gs)%Q /\ (dot cs gs <= snd (contract cs los his))%Q.
+Proof. exact contract_sound. Qed.
+Print Assumptions C03_contract_sound.
 
 (** * 1. The dual numbers *)
 Theorem C03_dual_is_semiring :
